@@ -723,6 +723,10 @@ func TestC19Bytes(t *testing.T) {
 		rr := rand.New(rand.NewPCG(uint64(run.Seed)^uint64(i), uint64(run.Shard)))
 		seeds := seedMessages(rr)
 		data := mutate(rr, seeds[rr.IntN(len(seeds))])
+		if i%37 == 5 {
+			// the shortest documents there are: bare literals, empty containers, padding
+			data = []byte([]string{"null", " null ", "null\n", "true", "0", `""`, "[]", "{}", " {} ", "[null]", `{"headers":null}`, `{"type":null,"key":null,"value":null,"headers":null}`}[(i/37)%12])
+		}
 		if rr.IntN(6) == 0 {
 			data = mutate(rr, data)
 		}
